@@ -52,6 +52,9 @@ def run(idx, rep, tier):
     r8(idx, rep)
     r9(idx, rep)
     durable_ids(idx, rep, "R4")
+    # group members count what a standalone path counts: CsvPaths.csvpath() hands its settings (skip_blank_lines, dialect) to every member
+    from . import c08 as _c08
+    _c08.r2(idx, K.as_rule(rep, "R6", keep=lambda k: "builds a new member" in k))
     # a path that is not ending must not be left frozen by a last()/fail() consequence: set_variable is a no-op on a frozen path (R5),
     # so every later assignment of that line would silently keep its old value
     from . import c13
@@ -453,7 +456,7 @@ def r6(idx, rep):
     rep.stats["table_rows"] = rep.stats.get("table_rows", 0) + rows
 
 
-def r7(idx, rep):
+def r7(idx, rep, rid="R7"):
     fi = idx.method("Variable", "to_value")
     rep.analysed(fi)
     bad = None
@@ -471,18 +474,20 @@ def r7(idx, rep):
             bad = bad or f"@v{'.' + track if track else ''} with variables {variables}: reads {ps[0].result[1]!r}, documented {want!r}"
         if ps[0].final_store[VARS] != variables and want is not None:
             bad = bad or f"reading @v changed the variables: {variables} -> {ps[0].final_store[VARS]}"
-    rep.check(bad is None, "R7", f"{fi.file}::Variable.to_value table", bad or f"{len(cases)} rows", K.where(fi, fi.node))
+    rep.check(bad is None, rid, f"{fi.file}::Variable.to_value table", bad or f"{len(cases)} rows", K.where(fi, fi.node))
     fm = idx.method("Variable", "matches")
     rep.analysed(fm)
     bad = None
-    for val, asbool, want in ((None, False, False), (0, False, True), ("x", False, True), (0, True, False), ("false", True, False), (3, True, True)):
+    # bare @v is an existence test: any value other than None exists — "", "None", "nan", 0, False and [] included
+    for val, asbool, want in ((None, False, False), (0, False, True), ("x", False, True), ("", False, True), ("None", False, True), ("nan", False, True), (False, False, True),
+                              ([], False, True), (0, True, False), ("false", True, False), (3, True, True)):
         it = Interp(idx, types={"self": "Variable", FM.EU: FM.EU}, inline=FM.EU_INLINE, unknown_calls="residual",
                     domains={"self.asbool": [asbool], "self.match": [None]},
                     handlers={"self.to_value": lambda i, c, r, a, k, val=val: val, "math.isnan": FM._isnan})
         ps = it.run_all(fm, args={"skip": []})
         if len(ps) != 1 or ps[0].result != ("return", want):
             bad = bad or f"@v (value {val!r}, asbool={asbool}) votes {ps[0].result}, documented {want}"
-    rep.check(bad is None, "R7", f"{fm.file}::Variable.matches table", bad or "", K.where(fm, fm.node))
+    rep.check(bad is None, rid, f"{fm.file}::Variable.matches table", bad or "", K.where(fm, fm.node))
 
 
 def r8(idx, rep):
@@ -565,11 +570,11 @@ def r9(idx, rep):
     # ---- counter(n): click counter
     it, st = _var_interp(idx, "Counter", extra_handlers={"self.first_non_term_qualifier": lambda i, c, r, a, k: "clicks", "self.get_id": lambda i, c, r, a, k: "id",
                                                         "self._value_one": lambda i, c, r, a, k: cur["v"]})
-    fco, program = _lines_program(idx, "Counter", "_produce_value", [None, None, 5, "2", None], setup_every)
+    fco, program = _lines_program(idx, "Counter", "_produce_value", [None, None, 5, "2", None, 0, "0", None], setup_every)
     rep.analysed(fco)
     ps = it.run_program(program, st)
-    ok = len(ps) == 1 and ps[0].result == ("return", [1, 2, 7, 9, 10]) and ps[0].final_store[VARS].get("clicks") == 10
-    rep.check(ok, "R9", f"{fco.file}::Counter sequence table", f"{ps[0].result if ps else None}; documented [1, 2, 7, 9, 10]", K.where(fco, fco.node))
+    ok = len(ps) == 1 and ps[0].result == ("return", [1, 2, 7, 9, 10, 10, 10, 11]) and ps[0].final_store[VARS].get("clicks") == 11
+    rep.check(ok, "R9", f"{fco.file}::Counter sequence table", f"{ps[0].result if ps else None}; documented [1, 2, 7, 9, 10, 10, 10, 11] (no argument adds 1, an argument of 0 adds 0)", K.where(fco, fco.node))
 
 
 # ------------------------------------------------------------------------------------------ durable ids
